@@ -149,7 +149,7 @@ func reaperPrograms(c *RunCtx, nq, nt int) {
 		c.Program(fmt.Sprintf("reaper/%d", v), func(p *Prog) {
 			cfg := drawReaper(p.Rng)
 			p.Explore(func(pl Plan) *Result { return epReaper(c, cfg) },
-				ExploreOpts{Base: 4, K: c.Q(6, 12), Funcs: reaperFuncs, Pairs: c.Q(40, 200), MaxCases: c.Q(300, 3000)})
+				ExploreOpts{Base: 4, Noise: c.Q(20, 100), K: c.Q(6, 12), Funcs: reaperFuncs, Pairs: c.Q(40, 200), MaxCases: c.Q(300, 3000)})
 		})
 	}
 }
